@@ -103,9 +103,12 @@ def build_world(scn):
 
         async def atrace(event_name, info):
             w.trace_events.append((token, event_name))
-            if scn.get("trace_yields"):
+            ty = scn.get("trace_yields")
+            if ty and (ty == "all" or event_name != "http2.send_request_headers.started"):
                 # an async trace callback may await: one checkpoint per event, so that a
-                # cancellation can land inside the callback (asyncio / anyio only)
+                # cancellation can land inside the callback.  Awaiting at
+                # http2.send_request_headers.started lets a second request allocate the
+                # same stream id (KF-C15-2): only the dedicated family does that
                 import anyio
 
                 await anyio.lowlevel.checkpoint()
